@@ -292,3 +292,5 @@ def crash_sig(case, ex, where, tb):
 
 def run_case(case, res):
     (run_grid if case["gen"] == "grid" else run_run)(case, res)
+
+RULE += (" " + 'Bounds handed over as lists / tuples / ints; Normal distributions on finite and half-infinite supports (boundary off); affine offsets up to 3e5.')
